@@ -142,6 +142,17 @@ Triples(S, id0) ==
                  [mut |-> IF same THEN "none" ELSE "triple", triple |-> t])
       : t \in AlgValues \X AlgValues \X (AlgValues \ {2, 3, 4}) }
 
+\* the caller itself pins a suite the library does not implement (None, unassigned, OEM numbers) and the BMC confirms
+\* exactly that: an error, whatever the numbers - never a session, never a crash
+OddProposals(S, id0) ==
+  { LET SB == [S EXCEPT !.authNum = t[1], !.integNum = t[2], !.confNum = t[3]]
+    IN  ScriptOf(id0 \o "-odd-" \o ToString(t[1]) \o "-" \o ToString(t[2]) \o "-" \o ToString(t[3]), "triples", SB,
+                 << NewSessionCall(SB, ExpErr(SB, "anyerror")),
+                    WithDg(HonestOsr(S), NullWrapper(17, OpenSessionRspT(SB))), HonestRakp2(S), HonestRakp4(S), ExpectSession(S) >>,
+                 [mut |-> "odd-proposal", triple |-> t])
+      : t \in { x \in (AlgValues \cup {5, 6, 255}) \X (AlgValues \cup {5, 255}) \X (AlgValues \cup {5, 255}) :
+                 x[1] \notin {1, 2, 3} \/ x[2] \notin {1, 2, 4} \/ x[3] # 1 } }
+
 \* ----------------------------------------------- retried handshake legs (C10, C09)
 RetryKinds == {"lost", "garbage", "stamped"}
 Garbage == [React0 EXCEPT !.datagrams = << Dg(B(<<6, 0, 255, 7, 6, 17, 1>>), [kind |-> "garbage"]) >>]
@@ -207,6 +218,7 @@ MutateSet ==
 TripleSet ==
   LET props == IF Full THEN SupportedSuites ELSE {<<1, 1>>, <<3, 4>>, <<1 + (Seed % 3), IF (Seed % 3) = 2 THEN 4 ELSE 1 + (Seed % 3)>>}
   IN UNION { Triples(Scn(9500 + s[1] * 10 + s[2], s[1], s[2], 1, 4, 6, FALSE, 4, TRUE), "t" \o ToString(s[1]) \o ToString(s[2])) : s \in props }
+     \cup OddProposals(Scn(9600 + Seed, 1 + (Seed % 3), IF (Seed % 3) = 2 THEN 4 ELSE 1 + (Seed % 3), 1, 4, 6, FALSE, 4, TRUE), "p")
 
 RetrySet ==
   LET S0 == Scn(9700 + Seed, 1 + (Seed % 3), IF (Seed % 3) = 2 THEN 4 ELSE 1 + (Seed % 3), 1, 6, 10, (Seed % 2) = 0, 4, TRUE)
